@@ -547,6 +547,26 @@ func runC15(seed int64, n int) {
 		}
 	}
 	rec(nil)
+	// longer scripts (up to length 6) over the reduced alphabet {MULTI, EXEC, DISCARD, ok-write}
+	if n >= 3000 {
+		small := []int{sMULTI, sEXEC, sDISCARD, sW}
+		var rec2 func(prefix []int, depth int)
+		rec2 = func(prefix []int, depth int) {
+			if len(sum.Failures) > 0 {
+				return
+			}
+			if len(prefix) == depth {
+				runScript(prefix)
+				return
+			}
+			for _, s := range small {
+				rec2(append(append([]int{}, prefix...), s), depth)
+			}
+		}
+		for depth := L + 1; depth <= 6; depth++ {
+			rec2(nil, depth)
+		}
+	}
 
 	// two connections interleaved: A queues a block while B runs commands
 	r := rand.New(rand.NewSource(seed))
